@@ -112,6 +112,9 @@ def body():
     SDEV = {257: {"honest": (True, True), "ske_wrong_key": (False, True), "ske_stale_random": (False, True), "no_ske": (False, False), "finished_wrong": (True, False), "finished_plain": (True, False), "no_ccs": (True, False)},
             772: {"honest": (True, True), "no_cv": (False, False), "no_cert": (False, False), "cv_wrong_key": (False, True), "cv_stale_transcript": (False, True), "cv_client_context": (False, True), "finished_wrong": (True, False)}}
     SDEV[772]["cv_alg_other"] = (False, True)
+    for pr in (257, 772):          # negotiation answers the client did not ask for (771 is derived from 257 below)
+        for dname in ("suite_not_offered", "suite_unknown", "version_other", "compression_nonzero") + (("version_lower",) if pr == 257 else ()):
+            SDEV[pr][dname] = (True, False)
     SDEV[771] = dict(SDEV[257])
     # TLS 1.2: the hello extensions the client relies on are not all echoed, and the key exchange is signed by somebody else / under another algorithm label
     for dname in ("only_ecpf+ske_wrong_key", "no_groups+ske_wrong_key", "no_sigalg+ske_wrong_key", "ske_alg_other+ske_wrong_key", "ske_alg_other"):
